@@ -13,12 +13,23 @@ from ..report import Finding, Result
 from ._blockvalidate import CORE, BlockValidate
 
 
-def reads_of(prog, body_path):
-    """(adt, field) pairs read through the first parameter of a body"""
+def reads_of(prog, body_path, depth=0):
+    """(adt, field) pairs read through the first parameter of a body (and of workspace functions it hands that parameter to)"""
     b = prog.body(body_path)
     if b is None:
         raise LookupError(body_path + " not found")
     out = set()
+    if depth < 2:
+        for _, t in b.calls():
+            callee = t.get("res") or t.get("callee") or ""
+            if callee.startswith(("saito_", "<saito_")) and callee != body_path and callee in prog.bodies and t.get("args"):
+                a0 = t["args"][0]
+                # the receiver itself (or a plain reborrow of it) is passed on: `self.serialize_signed_fields()`
+                if a0[0] in ("cp", "mv") and not a0[1][1]:
+                    src = a0[1][0]
+                    reb = src == 1 or any(d[0] == "stmt" and d[3][0] in ("use", "ref") and repr(d[3]).count("[1, [") > 0 and "'f'" not in repr(d[3]) for d in b.defs(src))
+                    if reb:
+                        out |= reads_of(prog, callee, depth + 1)
     for blk in b.blocks:
         for st in blk["s"]:
             if st[0] == "=":
@@ -420,7 +431,9 @@ def run(prog, tier, extra=None):
                             "without changing the merkle leaf" % fld, tsig.loc(0)))
     THIN = ("filter", "filter_map", "skip", "skip_while", "take", "take_while", "step_by", "find", "nth", "last", "next", "rev_skip", "dedup", "dedup_by_key")
     thin = [(b_, bb, (call_name(t) or "").rsplit("::", 1)[-1]) for b_ in sig_bodies for bb, t in b_.calls()
-            if (call_name(t) or "").rsplit("::", 1)[-1] in THIN and ("iter::" in (call_name(t) or "") or "Iterator" in (call_name(t) or ""))]
+            if (call_name(t) or "").rsplit("::", 1)[-1] in THIN and ("iter::" in (call_name(t) or "") or "Iterator" in (call_name(t) or ""))
+            # `next` at the head of a `for` loop drives the loop: every element is visited
+            and not ((call_name(t) or "").rsplit("::", 1)[-1] == "next" and b_.innermost_loop_containing([bb]) is not None)]
     res.instance(R10)
     if thin:
         b_, bb, n = thin[0]
